@@ -19,6 +19,12 @@ Round 2 (checks/C13_round2.py, oracles/mst_big.py): a size ladder far beyond the
 joined by bridges, multigraphs, planted optimum) judged by Boruvka + matrix Prim + cycle-property certificate; fine-grained
 numerics (B + k*2^-g with g up to 40, large magnitudes, int/float ties); history mode (one edge list / adjacency dict
 object edited in place between calls, every call twice, last call repeated in a fresh process).
+
+Round 3 (checks/C13_round3.py, checks/present3.py): presentation diversity - the small-scope and seeded graphs once more, each
+through a presentation drawn per instance (node labels None / falsy / tuples / pairs whose first entry is a node / mixed
+types / equal-but-differently-typed spellings; mapping and adjacency container kinds; int and non-integral float weights in
+one input; kruskal through backend="python" AND through the default call), plus the frame clauses 'caller-owned input
+unchanged' and 'same answer when the call is repeated'.
 """
 from __future__ import annotations
 
@@ -30,6 +36,7 @@ from vf.core import Ctx, use_repo
 from vf.pool import pmap
 from oracles import mst as O
 from checks import C13_round2 as R2
+from checks import C13_round3 as R3
 
 LEVEL = "exploration"
 W4 = (-1, 0, 1, 2)
@@ -475,6 +482,8 @@ def work(chunk):
         return R2.work_ladder(chunk)
     if kind == "H":
         return R2.work_history(chunk)
+    if kind == "P":
+        return R3.work_present(chunk)
     acc = Acc()
     if kind == "A":
         _, n, m, pre, W, seed = chunk
@@ -547,12 +556,15 @@ def run(ctx: Ctx):
     grow = [h for h in hspecs if h["size"] != "small"]
     small = [h for h in hspecs if h["size"] == "small"]
     hchunks = [("H", [h]) for h in grow] + [("H", small[i:i + 50]) for i in range(0, len(small), 50)]
+    # round 3: presentation diversity (checks/C13_round3.py)
+    pchunks, pplan = R3.specs(q, seed)
     # heavy chunks first
-    items = (lchunks[:nbig] + hchunks[:len(grow)] + [c for c in rchunks if c[1] == "dense"] + lchunks[nbig:] + chunks
-             + [c for c in rchunks if c[1] != "dense"] + hchunks[len(grow):])
+    items = (pchunks[:len(R3.ENUM_SCOPES)] + lchunks[:nbig] + hchunks[:len(grow)] + [c for c in rchunks if c[1] == "dense"] + lchunks[nbig:] + chunks
+             + [c for c in rchunks if c[1] != "dense"] + hchunks[len(grow):] + pchunks[len(R3.ENUM_SCOPES):])
     results = pmap(work, items, chunksize=1)
     evals = graphs = nontriv = heavy = uf7 = 0
     r2 = Counter()
+    r3 = Counter()
     lasts = []
     keys = set()
     per_obl = Counter()
@@ -561,7 +573,7 @@ def run(ctx: Ctx):
     sampled = set()
     for it, r in zip(items, results):
         kind = (it[0], it[1] if it[0] not in ("L", "H") else None)
-        if kind not in sampled and r["samples"] and len(str(r["samples"][0])) < 1200:
+        if kind not in sampled and r["samples"] and len(str(r["samples"][0])) < 1600:
             sampled.add(kind)
             samples.append(r["samples"][0])
         evals += r["evals"]
@@ -577,6 +589,7 @@ def run(ctx: Ctx):
                 r2[k] = max(r2[k], v)
             else:
                 r2[k] += v
+        r3.update(r.get("r3", {}))
         lasts += r.get("lasts", [])
     # history mode: the last call of a sample of sessions, repeated in a fresh interpreter on newly built arguments
     try:
@@ -627,6 +640,33 @@ def run(ctx: Ctx):
                            "disconnected": "2..14 nodes, 2..4 components, isolated nodes",
                            "numeric": "2..12 nodes, weights B + k*2^-g (g in 20..40, B up to 2^24 as far as exact float "
                                       "sums allow), +-(10^9-k), 2^40+k, int/float ties"})
+    backends = {k[len("kruskal:"):]: v for k, v in r3.items() if k.startswith("kruskal:")}
+    ctx.scope("round 3 presentation diversity: the graphs of the small scope and of the seeded families once more, each "
+              "through a presentation drawn per instance (checks/C13_round3.py, checks/present3.py)",
+              graphs=r3["graphs"],
+              structural_generators={"enumerated": "all multigraphs n=2 m<=3 weights {-1,0,1,2}; n=3 m<=3 weights {1,2}; n=4 "
+                                                   "m<=3 weight 1; all simple graphs on 4 nodes with weights {1,2}"
+                                                   + ("" if q else " (4 presentations each)"),
+                                     "seeded families": pplan},
+              transformers={"node labels (prim)": {k[len("labels:"):]: v for k, v in r3.items() if k.startswith("labels:")},
+                            "equal-but-differently-typed spellings of a node (1 / 1.0 / True)": r3["with-equal-but-differently-typed-spellings"],
+                            "graph mapping kind (prim)": {k[len("graph-as:"):]: v for k, v in r3.items() if k.startswith("graph-as:")},
+                            "adjacency value kind (prim)": {k[len("adjacency-as:"):]: v for k, v in r3.items() if k.startswith("adjacency-as:")},
+                            "weight typing (both)": {k[len("weights:"):]: v for k, v in r3.items() if k.startswith("weights:")},
+                            "kruskal back ends exercised (calls)": backends},
+              graphs_with_a_node_labelled_None=r3["graphs-with-a-node-labelled-None"],
+              graphs_with_a_falsy_node_label=r3["graphs-with-a-falsy-node-label"],
+              graphs_with_a_pair_node_whose_first_entry_is_a_node=r3["graphs-with-a-pair-node-whose-first-entry-is-a-node"],
+              calls="kruskal x {allow_forest} x {backend='python', default (no backend argument)}, each twice on the same "
+                    "list; prim from the default start and from every node (n <= 6, else 3 drawn), first two twice",
+              frame_clauses=["caller-owned edge list / adjacency mapping unchanged after the call",
+                             "same answer when the call is repeated on the same objects"],
+              left_out="one-shot iterables as adjacency values (prim reads them more than once; the statement does not "
+                       "cover container kinds), explicit start for the node labelled None (start=None means 'first key'), "
+                       "unhashable or NaN labels, weights that are not int/float or exceed 2^53",
+              cpu_seconds=round(r3["cpu_ms"] / 1000, 1))
+    ctx.notes["round3"] = dict(r3)
+    ctx.notes["kruskal_back_ends_exercised"] = backends
     size = lambda v: len(str(v[1]))  # noqa: E731
     viol.sort(key=lambda v: (v[0], size(v)))
     kept = Counter()
@@ -652,12 +692,16 @@ def run(ctx: Ctx):
                 "every node, with a label scheme (int, negative int, str, tuple, frozenset, mixed unorderable) and "
                 "shuffled adjacency / key order drawn per graph. Round 2: one case per ladder spec (family, size, weight "
                 "palette, index; graph regenerated from the spec) counted when non-trivial, one per history session "
-                "(script regenerated from the spec); distinct by construction; every call of a session is an evaluation.")
+                "(script regenerated from the spec); distinct by construction; every call of a session is an evaluation. "
+                "Round 3: case = (graph as passed, presentation: labels, spellings, containers, key and neighbour order), "
+                "distinct by hash, counted when non-trivial; every kruskal / prim call (repeats not counted) is an evaluation.")
     ctx.assumptions += [
         "weights are ints or floats whose partial sums are exactly representable (objective compared exactly; float rounding of sums not modelled)",
         "prim's graph argument is a symmetric adjacency dict that lists every node as a key (an undirected graph)",
         "n >= 1 (kruskal rejects n_nodes = 0; the empty prim graph is not judged)",
-        "kruskal is run with backend='python' only (the Rust kernel is C12's subject)",
+        "kruskal is run with backend='python' everywhere; round 3 also makes the default call (no backend argument), which "
+        "is the Rust adapter when solvor._solvor_rust is importable in the tree under check and the Python fallback "
+        "otherwise (notes.kruskal_back_ends_exercised says which ran); agreement of the two kernels on large inputs is C12's subject",
     ]
     ctx.trusted += ["oracles/mst.py: subset enumeration (definition), array Prim cross-checked against it on every "
                     "enumerated graph, cycle-property certificate on every accepted tree",
@@ -669,6 +713,8 @@ def run(ctx: Ctx):
 def replay(rec) -> int:
     use_repo()
     case = rec["case"]
+    if case.get("r3"):
+        return R3.replay(rec)
     if case["fn"] == "history" or "ladder" in case or "ladder" in case.get("kruskal", {}):
         return R2.replay(rec)
     cases = [case["kruskal"], case["prim"]] if case["fn"] == "both" else [case]
